@@ -194,11 +194,15 @@ impl Space for CalSweep {
                 out.law("year agrees with (era, eraYear)", cy as i64 == x, || attrs(vec![("fields", format!("{f:?}")), ("era_name", e2.clone())]));
             }
         }
+        // 8b. the year starts with day 1 of month 1
+        out.law("day_of_year = 1 <=> month 1, day 1", (doy == 1) == (cm == 1 && cd == 1), fa);
         // 8. month <-> month code
         let code_num: u8 = code[1..3].parse().unwrap_or(0);
         let code_leap = code.ends_with('L');
         if has_leap_months(cal_id) {
-            out.law("month code consistent with month (leap-month calendar)", code_num >= 1 && (cm == code_num || cm == code_num + 1) && (!code_leap || leap), fa);
+            // ordinal month: the code number, or one more from the leap month of the year onwards
+            let ok = code_num >= 1 && if !leap { !code_leap && cm == code_num } else if code_leap { cm == code_num + 1 } else { cm == code_num || cm == code_num + 1 };
+            out.law("month code consistent with month (leap-month calendar)", ok, fa);
         } else {
             out.law("month code = M{month}", !code_leap && code_num == cm, fa);
         }
